@@ -14,20 +14,7 @@ quoted otherwise.
 -/
 namespace Vflow
 
-/-! ## Decimal text -/
-
-/-- decimal digits of a natural number, most significant first (no leading zero; `0` is "0") -/
-def natDigits (n : Nat) : Bytes :=
-  if h : n < 10 then [UInt8.ofNat (48 + n)] else natDigits (n / 10) ++ [UInt8.ofNat (48 + n % 10)]
-termination_by n
-decreasing_by omega
-
-def intDigits (i : Int) : Bytes :=
-  if i < 0 then 45 :: natDigits i.natAbs else natDigits i.toNat
-
 /-! ## `encoding/json` string escaping -/
-
-def hexLower (n : Nat) : UInt8 := if n < 10 then UInt8.ofNat (48 + n) else UInt8.ofNat (87 + n)
 
 def isCont (b : UInt8) : Bool := 0x80 ≤ b && b ≤ 0xBF
 
@@ -103,9 +90,9 @@ def writeValue (v : Val) (ftext : Bytes) : Bytes :=
   | .f32 bits => if f32Finite bits then ftext else quoted ftext
   | .f64 bits => if f64Finite bits then ftext else quoted ftext
   | .str s => quoted (escString s)
-  | .ip b => quoted (str (ipString b))
-  | .mac b => quoted (str (macString b))
-  | .raw b => quoted (48 :: 120 :: str (hex b))
+  | .ip b => quoted (ipBytes b)
+  | .mac b => quoted (macBytes b)
+  | .raw b => quoted (48 :: 120 :: hexBytes b)
 
 /-- a decoded field with the float text supplied by the environment -/
 structure JField where
@@ -126,28 +113,29 @@ def joinComma : List Bytes → Bytes
 
 def recordJson (r : List JField) : Bytes := [91] ++ joinComma (r.map fieldJson) ++ [93]
 
+/-- `"DataSets":` -/
+def dataSetsKey : Bytes := [34, 68, 97, 116, 97, 83, 101, 116, 115, 34, 58]
+
 /-- `"DataSets":[[…],[…]]` -/
 def dataSetsJson (recs : List (List JField)) : Bytes :=
-  str "\"DataSets\":" ++ [91] ++ joinComma (recs.map recordJson) ++ [93]
+  dataSetsKey ++ [91] ++ joinComma (recs.map recordJson) ++ [93]
 
 /-- header / agent write programs (only `lit`, `num`, `agent` occur) -/
-def runHdrWrites (agent : String) (layout : List (String × Nat)) (vals : List Nat) : List W → Bytes
+def runHdrWrites (agent : Bytes) (vals : List Nat) : List W → Bytes
   | [] => []
-  | .lit s :: ws => str s ++ runHdrWrites agent layout vals ws
-  | .num f :: ws =>
-    natDigits ((layout.zip vals).foldr (fun e acc => if e.1.1 = f then e.2 else acc) 0) ++ runHdrWrites agent layout vals ws
-  | .agent :: ws => str agent ++ runHdrWrites agent layout vals ws
-  | _ :: ws => runHdrWrites agent layout vals ws
+  | .lit b :: ws => b ++ runHdrWrites agent vals ws
+  | .num i :: ws => natDigits (vals.getD i 0) ++ runHdrWrites agent vals ws
+  | .agent :: ws => agent ++ runHdrWrites agent vals ws
+  | _ :: ws => runHdrWrites agent vals ws
 
-/-- `Message.JSONMarshal`, generic in header layout and write programs -/
-def marshalFlow (layout : List (String × Nat)) (pa ph : List W) (agent : String) (hdr : List Nat)
-    (recs : List (List JField)) : Bytes :=
-  [123] ++ runHdrWrites agent layout hdr pa ++ runHdrWrites agent layout hdr ph ++ dataSetsJson recs ++ [125]
+/-- `Message.JSONMarshal`, generic in the write programs -/
+def marshalFlow (pa ph : List W) (agent : Bytes) (hdr : List Nat) (recs : List (List JField)) : Bytes :=
+  [123] ++ runHdrWrites agent hdr pa ++ runHdrWrites agent hdr ph ++ dataSetsJson recs ++ [125]
 
-def Ipfix.marshal (agent : String) (hdr : List Nat) (recs : List (List JField)) : Bytes :=
-  marshalFlow Gen.Layouts.ipfixHeader Gen.JsonWrites.ipfixAgent Gen.JsonWrites.ipfixHeader agent hdr recs
+def Ipfix.marshal (agent : Bytes) (hdr : List Nat) (recs : List (List JField)) : Bytes :=
+  marshalFlow Gen.JsonWrites.ipfixAgent Gen.JsonWrites.ipfixHeader agent hdr recs
 
-def V9.marshal (agent : String) (hdr : List Nat) (recs : List (List JField)) : Bytes :=
-  marshalFlow Gen.Layouts.v9Header Gen.JsonWrites.v9Agent Gen.JsonWrites.v9Header agent hdr recs
+def V9.marshal (agent : Bytes) (hdr : List Nat) (recs : List (List JField)) : Bytes :=
+  marshalFlow Gen.JsonWrites.v9Agent Gen.JsonWrites.v9Header agent hdr recs
 
 end Vflow
